@@ -4,33 +4,33 @@ package jtp
 
 import lru "github.com/hashicorp/golang-lru/v2"
 
-// These accessors depend on the concrete cache type; they are bound only into the checks
-// that explore cache states (C02, C03).
+// These accessors depend on the concrete VERIF_VAR_cache type; they are bound only into the checks
+// that explore VERIF_VAR_cache states (C02, C03).
 
-// VerifSetCacheSize recreates the cache with the given capacity (as start-up would
+// VerifSetCacheSize recreates the VERIF_VAR_cache with the given capacity (as start-up would
 // with cache_size = n).
 func VerifSetCacheSize(n int) error {
 	c, err := lru.New[string, bundle](n)
-	cache = c
+	VERIF_VAR_cache = c
 	return err
 }
 
 func VerifCacheKeys() []string {
-	if cache == nil {
+	if VERIF_VAR_cache == nil {
 		return nil
 	}
-	return cache.Keys()
+	return VERIF_VAR_cache.Keys()
 }
 
-// VerifCacheDump describes every cache entry (in LRU order, oldest first) for the
+// VerifCacheDump describes every VERIF_VAR_cache entry (in LRU order, oldest first) for the
 // explicit-state searches: key, whether a document is stored, its source, its error.
 func VerifCacheDump() []string {
-	if cache == nil {
+	if VERIF_VAR_cache == nil {
 		return nil
 	}
 	var out []string
-	for _, k := range cache.Keys() {
-		b, _ := cache.Peek(k)
+	for _, k := range VERIF_VAR_cache.Keys() {
+		b, _ := VERIF_VAR_cache.Peek(k)
 		s, e := "-", "-"
 		if b.source != nil {
 			s = b.source.String()
